@@ -329,7 +329,8 @@ def rt_real(seed, n):
             r_fresh = mk().train_on(m2)
             fresh_s = _time.time() - t_
             reused = mk()
-            reused.train_on(m)
+            r_first = reused.train_on(m)
+            q_first = {s: dict(v_) for s, v_ in r_first.q_values.items()}      # snapshot: the policy of this result is built lazily
             try:
                 with time_limit(30):          # a fresh learner needs milliseconds here
                     r_reused = reused.train_on(m2)
@@ -341,6 +342,14 @@ def rt_real(seed, n):
                 set(r_reused.q_values[s]) == set(r_fresh.q_values[s]) and all(abs(r_reused.q_values[s][a] - r_fresh.q_values[s][a]) < 1e-12 for a in r_fresh.q_values[s])
                 for s in r_fresh.q_values)
             zero_abs = all(v_ == 0 for v_ in r_reused.q_values.get(0, {}).values())
+            # the FIRST result stays what it was: its (lazily evaluated) policy is greedy for ITS table even when asked after the second training
+            okp = True
+            for s_ in q_first:
+                mx = max(q_first[s_].values())
+                okp &= set(r_first.policy.action_dist(s_).support) == {a_ for a_, x_ in q_first[s_].items() if x_ == mx}
+            okp &= {s: dict(v_) for s, v_ in r_first.q_values.items()} == q_first
+            out.append(dict(name='rt:%s:an-earlier-result-is-not-changed-by-training-the-same-learner-again' % algo, ok=bool(okp),
+                            witness=dict(alpha=alpha, eps=eps, temp=temp, q0=q0, gamma=g, seed=k, first=repr(q_first))))
             out.append(dict(name='rt:%s:a-reused-learner-object-equals-a-fresh-one-on-a-second-model;absorbing-rows-0' % algo, ok=bool(same and zero_abs),
                             witness=dict(alpha=alpha, eps=eps, temp=temp, q0=q0, gamma=g, seed=k, reused=repr({s: dict(v_) for s, v_ in r_reused.q_values.items()}),
                                          fresh=repr({s: dict(v_) for s, v_ in r_fresh.q_values.items()}))))
